@@ -16,7 +16,7 @@ use std::io::Write;
 use std::sync::atomic::{AtomicUsize, Ordering};
 use std::sync::Arc;
 
-fn one_run(case: &AdfCase, script: Vec<(usize, bool)>, twoval: bool, id: String) -> Vec<Value> {
+fn one_run(case: &AdfCase, script: Vec<(usize, bool)>, twoval: bool, id: String, builtin: Option<&'static str>) -> Vec<Value> {
     let text = case.text();
     let n = case.n();
     let asts: Vec<Value> = case.asts.iter().map(|a| a.to_json_idx()).collect();
@@ -40,17 +40,23 @@ fn one_run(case: &AdfCase, script: Vec<(usize, bool)>, twoval: bool, id: String)
             Some((Var(und[rank % und.len()]), Term::from(val)))
         };
         verif_trace::install();
+        let h: Heuristic = match builtin {
+            Some("Simple") => Heuristic::Simple,
+            Some("MinModMinPathsMaxVarImp") => Heuristic::MinModMinPathsMaxVarImp,
+            Some("MinModMaxVarImpMinPaths") => Heuristic::MinModMaxVarImpMinPaths,
+            _ => Heuristic::Custom(&heu),
+        };
         let out: Vec<Vec<Term>> = if twoval {
             let (s, r) = crossbeam_channel::unbounded();
-            adf.two_val_nogood_channel(Heuristic::Custom(&heu), s);
+            adf.two_val_nogood_channel(h, s);
             r.try_iter().collect()
         } else {
-            adf.stable_nogood(Heuristic::Custom(&heu)).collect()
+            adf.stable_nogood(h).collect()
         };
         let pk = picks.lock().unwrap().clone();
         (verif_trace::take(), out, pk)
     });
-    let mut recs = vec![json!({"kind": "start", "id": id, "n": n, "asts": asts, "twoval": twoval})];
+    let mut recs = vec![json!({"kind": "start", "id": id, "n": n, "asts": asts, "twoval": twoval, "heu": builtin.unwrap_or("Custom")})];
     match res {
         Outcome::Ok((events, out, pk)) => {
             let mut pi = 0;
@@ -131,7 +137,14 @@ pub fn main(args: &[String]) {
                 for k in 0..3 {
                     let len = rng.gen_range(1..=5);
                     let script: Vec<(usize, bool)> = (0..len).map(|_| (rng.gen_range(0..n), rng.gen_bool(0.5))).collect();
-                    for r in one_run(case, script, twoval, format!("{}#{}#{}", case.id, ci, k)) {
+                    for r in one_run(case, script, twoval, format!("{}#{}#{}", case.id, ci, k), None) {
+                        writeln!(f, "{}", r).unwrap();
+                    }
+                    total += 1;
+                }
+                // the built-in heuristics: TLC computes their picks from the transcription (NgSearch!HeuPick)
+                for h in ["Simple", "MinModMinPathsMaxVarImp", "MinModMaxVarImpMinPaths"] {
+                    for r in one_run(case, vec![], twoval, format!("{}#{}#{}", case.id, ci, h), Some(h)) {
                         writeln!(f, "{}", r).unwrap();
                     }
                     total += 1;
